@@ -16,6 +16,7 @@ PROPS = {
     "C05": dict(tests=[T("TestVerifC05Pipeline", 15000, 200000), T("TestVerifC05Pool", 8000, 100000)]),
     "C06": dict(tests=[T("TestVerifC06Seq", 4000, 60000)]),
     "C07": dict(tests=[T("TestVerifC07", 30000, 400000)]),
+    "C08": dict(tests=[T("TestVerifC08Buffer", 6000, 100000), T("TestVerifC08Store", 150, 1500, shrinktime="0s")]),
     "C11": dict(tests=[T("TestVerifC11", 3000, 30000)]),
     "C12": dict(level="fault_enumeration", evaluations_from_extra="c12_faulted_loads", tests=[T("TestVerifC12", 3, 40, q_shards=12)]),
     "C17": dict(tests=[T("TestVerifC17", 20000, 150000)]),
